@@ -358,6 +358,11 @@ def make_sets(rng, n):
             if isinstance(lo, int):
                 langs["fr-FR"] = CaptionList([Caption(s, e, [T(f"fr {q}")]) for q, (s, e) in enumerate(fr)])
         out.append((spans, CaptionSet(langs)))
+    # spans a microsecond or two apart, hours into the programme, are not identical: each caption keeps its own cue
+    for spans in ([(3600 * US + 999, 3605 * US), (3600 * US + 1001, 3605 * US)],
+                  [(7200 * US, 7204 * US + 999), (7200 * US, 7204 * US + 1000)],
+                  [(86000 * US + 999, 86001 * US + 999), (86000 * US + 1000, 86001 * US + 1000), (86000 * US + 1000, 86001 * US + 1000)]):
+        out.append((spans, CaptionSet({"en-US": CaptionList([Caption(s_, e_, [T(f"cue {j}")]) for j, (s_, e_) in enumerate(spans)])})))
     return out
 
 
@@ -541,6 +546,9 @@ def run(ctx):
       functions=[SAMIWriter._recreate_p_tag, SAMIWriter._recreate_blank_tag, SAMIWriter._recreate_sync])
     import props.C03_lines as LN
     LN.prove_cue_lines(ctx)          # (WebVTT: a caption with a text node yields at least one cue)
+    # the legacy / single-position DFXP writers merge exactly the runs of IDENTICAL spans (contract shared with C19)
+    import props.C19 as C19
+    P("base.merge_concurrent_captions", C19.mcc, functions=[C19.merge_concurrent_captions], setup_interp=C19.setup, crosscheck=False)
     ctx.bounded("writers", "caption sets of 1-4 cues (carry grid, seeded random, SCC-style fractional times, "
                 "identical and adjacent spans) x 7 writers, outputs parsed by the reference parsers; "
                 "non-trivial = distinct (writer, spans)", lambda b: bounded_writers(ctx, b))
